@@ -1,6 +1,6 @@
 #!/bin/sh
 # seedtest.sh <dir-with-patch.diff> <Cnn> [tier] : apply a seeded change to /repo, run the check, undo it.
-D=$1; P=$2; T=${3:-quick}
+D=$(cd "$1" && pwd); P=$2; T=${3:-quick}
 cd /repo || exit 2
 if ! git diff --quiet; then echo "/repo has uncommitted changes; refusing"; exit 2; fi
 git apply "$D/patch.diff" || { echo "patch does not apply"; exit 2; }
